@@ -50,8 +50,10 @@ def init_rules(model, R):
     lat = model.cls('lattices.Lattice')
     for name, want in (('infimum', 'self._concepts[0]'), ('supremum', 'self._concepts[-1]'), ('atoms', 'self.infimum.upper_neighbors')):
         m = lat.methods.get(name)
-        r = [src(n.value) for n in walk(m.body) if isinstance(n, ast.Return)] if m else []
-        R.check(r == [want], 'ORDER', m or f'lattices.Lattice.{name}', m.node if m else lat.node, f'lattice.{name}', want, str(r))
+        if m is None:
+            R.unknown('ORDER', f'lattices.Lattice.{name}', lat.node, f'lattice.{name}', 'missing')
+        else:
+            R.returns(m, want, 'ORDER', f'lattice.{name}')
     # class patching: atoms / supremum / infimum in that order so that a one/two-element lattice ends up right
     patches = []
     for s in stmts(f.body):
